@@ -236,6 +236,8 @@ fn arg_schema(r: &mut Rng, depth: u32) -> Schema {
         0 => return Schema::Reference(Box::new(layout_struct(r))),
         1 => return Schema::Slice(Box::new(layout_struct(r))),
         2 => return layout_struct(r),
+        // closures and trait objects as arguments (`&dyn Fn`, `&mut dyn FnMut`, `&dyn Trait`, `&mut dyn Trait`)
+        3 if depth > 0 => return if r.chance(1, 2) { Schema::FnClosure(r.chance(1, 2), gen_def(r, depth - 1)) } else { Schema::Trait(r.chance(1, 2), gen_def(r, depth - 1)) },
         _ => {}
     }
     let data_only = r.chance(2, 3);
